@@ -462,6 +462,9 @@ type c20Case struct {
 	// proxy's seed list when that master is the first) refuses connections while a few reads are sent, stays
 	// down a moment longer, comes back, and gets 11 s to be noticed: it is a healthy replica again
 	Outage bool `json:"outage_first,omitempty"`
+	// Failover: before the reads are counted, the first master that has a replica swaps roles with it in place
+	// (a manual failover: both nodes stay up); the demoted master is a healthy replica from then on
+	Failover bool `json:"failover_first,omitempty"`
 }
 
 func c20Gen(t *rapid.T) c20Case {
@@ -479,6 +482,7 @@ func c20Gen(t *rapid.T) c20Case {
 	c.Reads = 300
 	c.Mask = rapid.Uint64().Draw(t, "mask")
 	c.Outage = rapid.IntRange(0, 3).Draw(t, "outage") == 0
+	c.Failover = !c.Outage && rapid.IntRange(0, 2).Draw(t, "failover") == 0
 	return c
 }
 
@@ -506,9 +510,14 @@ func c20Exec(c *c20Case) []Discrepancy {
 	cfg := c.Topo.Cfg
 	var ds []Discrepancy
 	if c.Outage {
-		if msg := c20Outage(f, c); msg != "" {
+		if msg := c20Outage(f, c); msg == caseDiscarded {
+			return nil
+		} else if msg != "" {
 			return append(f.checkAlive("C20", nil), disc("C20/proxy-does-not-serve", "%s", msg))
 		}
+	}
+	if c.Failover {
+		c20Failover(f)
 	}
 	for mi := range c.Topo.Reps {
 		var slots []int
@@ -578,6 +587,11 @@ func c20Exec(c *c20Case) []Discrepancy {
 				}
 				continue
 			}
+			if lr.Node != own.Master && !lr.ReadOnly {
+				// a replica only serves reads on connections switched to read-only mode (a real one answers -MOVED)
+				evidence.For("C20").Add("reads_at_a_replica_without_readonly_not_counted", 1)
+				continue
+			}
 			got[lr.Node]++
 		}
 		for _, r := range own.Replicas {
@@ -588,6 +602,38 @@ func c20Exec(c *c20Case) []Discrepancy {
 		}
 	}
 	return ds
+}
+
+// c20Failover swaps the roles of the first master that has a replica and that replica, in place, and gives the
+// proxy four seconds (two probe rounds and a ticker run) to adopt it.
+func c20Failover(f *Fixture) {
+	t := f.Topo
+	for i := range t.Nodes {
+		m := &t.Nodes[i]
+		if !m.Master {
+			continue
+		}
+		for j := range t.Nodes {
+			r := &t.Nodes[j]
+			if r.Master || r.MasterID != m.ID {
+				continue
+			}
+			oldID := m.ID
+			r.Master, r.Slots, r.MasterID = true, m.Slots, ""
+			m.Master, m.Slots, m.MasterID = false, nil, r.ID
+			for k := range t.Nodes {
+				if t.Nodes[k].MasterID == oldID {
+					t.Nodes[k].MasterID = r.ID
+				}
+			}
+			t.Install(f.Cluster)
+			t.SetInfoFromTopo(f.Cluster)
+			f.Owners = t.Expected(nil)
+			evidence.For("C20").Add("failovers_played", 1)
+			time.Sleep(4 * time.Second)
+			return
+		}
+	}
 }
 
 // c20Outage takes one replica down while reads are routed to it, and brings it back.
@@ -634,7 +680,9 @@ func c20Outage(f *Fixture, c *c20Case) string {
 	}
 	time.Sleep(800 * time.Millisecond) // longer than the first retry window (server_retry_timeout 500 ms)
 	if err := f.Cluster.SetDown(victim, false); err != nil {
-		harnessProblem("cannot bring fake node %d back up: %v", victim, err)
+		// somebody else got the port in the meantime (busy machine): no verdict for this case
+		evidence.For("C20").Add("cases_discarded_node_port_lost", 1)
+		return caseDiscarded
 	}
 	time.Sleep(11 * time.Second) // the pool monitor probes every 5 s, twice per round when the first probe fails
 	return ""
@@ -650,6 +698,9 @@ func TestC20(t *testing.T) {
 		}
 		if c.Outage {
 			cls = append(cls, "after-a-replica-outage")
+		}
+		if c.Failover {
+			cls = append(cls, "after-an-in-place-failover")
 		}
 		rec.Case(&c, true, dedup(cls)...)
 		report(t, "C20", &c, c20Exec(&c))
